@@ -166,12 +166,17 @@ class Ctx:
         self.assumptions: list[str] = []
         self.bounds: dict[str, Any] = {}
 
-    def sharded(self, fn: Callable, extra: tuple = (), nshards: int | None = None) -> Part:
+    def sub_deadline(self, frac: float) -> float:
+        """A deadline that leaves (1 - frac) of the remaining budget to the parts that run afterwards."""
+        now = time.time()
+        return now + max(0.0, self.deadline - now) * frac
+
+    def sharded(self, fn: Callable, extra: tuple = (), nshards: int | None = None, deadline: float | None = None) -> Part:
         """Run fn(part, shard, nshards, tier, seed, deadline, *extra) for every shard."""
         w = max(1, self.workers)
         if nshards is None:
             nshards = w * 8 if w > 1 else 1
-        jobs = [(fn, s, nshards, self.tier, self.seed, self.deadline, extra) for s in range(nshards)]
+        jobs = [(fn, s, nshards, self.tier, self.seed, self.deadline if deadline is None else deadline, extra) for s in range(nshards)]
         agg = Part()
         if w == 1:
             for j in jobs:
